@@ -156,6 +156,8 @@ class SimA(SimBase):
         self.asock = asock
         if async_handlers_coro:
             async def hc(sid, environ):
+                if self.cfg.get('connect_send'):
+                    await self.server.send(sid, self.cfg['connect_send'])
                 return self._h_connect(sid, environ)
 
             async def hm(sid, data):
